@@ -141,6 +141,9 @@ def runParseOp (inp out : Json) : Json :=
   -- non-POSIX flag sets (a shorthand that is a word, ShorthandOnly / NameAsShorthand flags): the general models
   -- apply; the offer rules of C07 are compared on POSIX sets only
   let nonPosixTree := cmds.any (fun c => c.flags.any FlagS.nonPosix)
+  -- cobra's prefix matching / case-insensitive matching of sub-command names switched on: no model of cobra's name
+  -- resolution under these switches - the landing and probe oracles decide on the real code alone
+  let lenientNames := jbool (jget inp "tree") "prefixMatching" || jbool (jget inp "tree") "caseInsensitive"
   -- C01: every offered candidate, once accepted, lands in the slot whose completion produced it
   let c01 : List AFail := runs.filterMap (fun r =>
     let v := jstr (jget r "value")
@@ -417,8 +420,46 @@ def runParseOp (inp out : Json) : Json :=
   let ruleDiff := match ruleDiff with | some d => some d | none => subsDiff
   let crash : List AFail := if panic != "" && !panic.startsWith "execute:" then
     [{ prop := "C18", code := "panic:traverse", detail := panic }, { prop := "C01", code := "panic", detail := panic }] else []
-  let fails := crash ++ c01.take 2 ++ c01p ++ c01b ++ c07.take 2 ++ c07b.take 1 ++ subFails.take 1
+  -- C07, completeness without a model: a flag name the program itself accepts here as that flag (probe runs of the harness),
+  -- visible, not deprecated, not given yet, must be among the offered names
+  let c07c : List AFail :=
+    if !(cur == "-" || cur == "--") || !typedOk || panic != "" then [] else
+    let offeredLong := (values.filter (fun v => jstr (jget v "tag") == "longhand flags")).map (fun v => jstr (jget v "value"))
+    let rc := jnat typedRun "cmd"
+    let vis := flagsVisible cmds rc
+    (jarr out "flagProbes").toList.filterMap (fun pr =>
+      let n := jstr (jget pr "name")
+      let run := jget pr "run"
+      match vis.find? (fun f => f.name == n) with
+      | none => none
+      | some f =>
+        let accepted := jstr (jget run "err") == "" && (!(jget (jget run "flags") n).isNull || (n == "version" && !jbool run "ran"))
+        let given := !(jget (jget typedRun "flags") n).isNull
+        let covered := offeredLong.any (fun o => o == "--" ++ n || (o.endsWith "." && ("--" ++ n).startsWith o))
+        if !accepted || (f.hidden && !hiddenEnv) || f.deprecated || given || covered then none
+        else some { prop := "C07", code := "acceptable_not_offered", detail := s!"{words}: the program accepts --{n} here, offered: {offeredLong}" })
+  -- the same inside a shorthand series: a letter the program takes next as that flag (not given yet, visible, neither the flag
+  -- nor its shorthand deprecated) must be offered as `<series><letter>`
+  let c07d : List AFail :=
+    let tcr := jget out "typedCurRun"
+    if panic != "" || tcr.isNull || jstr (jget tcr "err") != "" then [] else
+    let offeredShort := (values.filter (fun v => jstr (jget v "tag") == "shorthand flags")).map (fun v => jstr (jget v "value"))
+    let rc := jnat tcr "cmd"
+    let vis := flagsVisible cmds rc
+    (jarr out "chainProbes").toList.filterMap (fun pr =>
+      let n := jstr (jget pr "name")
+      let sh := jstr (jget pr "short")
+      let run := jget pr "run"
+      match vis.find? (fun f => f.name == n) with
+      | none => none
+      | some f =>
+        let accepted := jstr (jget run "err") == "" && (!(jget (jget run "flags") n).isNull || (n == "version" && !jbool run "ran"))
+        let given := !(jget (jget tcr "flags") n).isNull
+        if !accepted || (f.hidden && !hiddenEnv) || f.deprecated || f.shortDeprecated || given || offeredShort.contains (cur ++ sh) then none
+        else some { prop := "C07", code := "acceptable_not_offered", detail := s!"{words}: the program accepts {cur ++ sh} here (flag {n}), offered: {offeredShort}" })
+  let fails := crash ++ c01.take 2 ++ c01p ++ c01b ++ c07.take 2 ++ c07b.take 1 ++ subFails.take 1 ++ c07c.take 1 ++ c07d.take 1
   let ruleDiff := match ruleDiff with | some d => some d | none => chainDiff
+  let (ruleDiff, slotDiff) := if lenientNames then ((none : Option String), (none : Option String)) else (ruleDiff, slotDiff)
   Json.mkObj [("same", Json.bool (ruleDiff.isNone && slotDiff.isNone)), ("diff", Json.str ((ruleDiff.getD "") ++ (slotDiff.getD ""))),
               -- C06: where the model says the parser's error is shown, the real answer carries a message
               ("aspects", Json.mkObj [("C01", Json.bool slotDiff.isNone), ("C07", Json.bool ruleDiff.isNone),
